@@ -200,6 +200,13 @@ def check_lexicon_rows(rep, uni, lexrows, case):
             rep.fail('lexicon metadata differs', case, {'lexicon': sp, 'got': r['meta'], 'expected': lx.get('meta')})
 
 
+def broken_resource(rng):
+    lx = gendoc.gen_lexicon(rng, 'qq', '1', 'en', ['i1', 'i2'], '1.1', size=3)
+    senses = [s_ for e in lx['entries'] for s_ in e.get('senses', [])]
+    senses[-1].setdefault('relations', []).append({'target': 'qq-no-such-sense', 'relType': 'antonym', 'meta': None})
+    return {'lmf_version': '1.1', 'lexicons': [lx]}
+
+
 def run(rep, tier, build, replay=None):
     rng = random.Random(common.seed() * 7919 + 1)
     n = 60 if tier == 'quick' else 900
@@ -212,7 +219,8 @@ def run(rep, tier, build, replay=None):
         unis.append({'resources': res, 'style_seed': rng.randrange(1 << 30), 'configs': cfgs, 'deep': False,
                      'want_tables': False, 'batch_size': rng.choice([None, None, 1, 2, 3]), 'interleave': True,
                      'churn': ({'lmf_version': '1.1', 'lexicons': [gendoc.gen_lexicon(rng, 'zz', '0', 'fr', ['i1', 'i2'], '1.1', size=2)]}
-                               if i % 2 == 0 else None)})
+                               if i % 2 == 0 else None),
+                     'churn_bad': (broken_resource(rng) if i % 4 == 0 else None)})
     nsh = common.NPROC
     shards = [s for s in (unis[i::nsh] for i in range(nsh)) if s]
     outs = common.run_impl_parallel('run_battery.py', [{'universes': s} for s in shards])
